@@ -6,6 +6,7 @@ I3 every generated id embeds the chromosome
 I4 exon-id key tuples agree between loader and lookup
 """
 import ast
+import re
 
 from ..engine.program import AnalysisError, dotted, src, walk_no_nested, call_name, enclosing_function
 from ..engine import flow, symexec
@@ -349,7 +350,7 @@ def i4(prog, ctx):
         # the annotation's ids may be loaded by a helper of the class into another table: the store whose value is the id attribute
         for name_, f_ in prog.methods_of(prog.cls(IDP, "FeatureIdStorage"), inherited=False).items():
             for s_ in walk_no_nested(f_):
-                if isinstance(s_, ast.Assign) and isinstance(s_.targets[0], ast.Subscript) and "attributes[id_attribute]" in src(s_.value):
+                if isinstance(s_, ast.Assign) and isinstance(s_.targets[0], ast.Subscript) and re.search(r"\.attributes\[\w+\]", src(s_.value)):
                     k = s_.targets[0].slice
                     if isinstance(k, ast.Name):
                         for a in walk_no_nested(f_):
@@ -368,7 +369,7 @@ def i4(prog, ctx):
     else:
         ctx.ok("I4", "%s:%d" % (IDP, s2.lineno), "exon-id key (chr,start,end,strand) on both sides: %s / %s" % (src(k1), src(k2)))
     # reference ids are stored verbatim
-    if s1 is not None and "attributes[id_attribute]" not in src(s1.value):
+    if s1 is not None and not re.search(r"\.attributes\[\w+\]", src(s1.value)):
         ctx.fail("I4", s1, "FeatureIdStorage.__init__", src(s1), "reference exon ids are not stored verbatim from the attribute")
     else:
         ctx.ok("I4", "%s:%d" % (IDP, s1.lineno), "reference exon_id attribute stored verbatim")
